@@ -1459,10 +1459,14 @@ def lifecycle(m, r):
     mod = e.module
     lc = _LC()
     lc.g = g = CFG(e, may_raise=any_call_may_raise)
-    lc.start_stmts = [stmt_of(mod, c) for c in r.start_calls]
+    # where a thread starts running: `t.start()` in the engine, or - when a callee constructs *and* starts it - the call of that callee
+    lc.start_method_calls = [c for c in e.own_calls() if isinstance(c.func, ast.Attribute) and c.func.attr == "start"
+                             and "threading.Thread.start" in ext_names(m, e, c)]
+    lc.start_sites = lc.start_method_calls or list(r.start_calls)
+    lc.start_stmts = [stmt_of(mod, c) for c in lc.start_sites]
     lc.spawn_loops = []
     for n in e.own_nodes():
-        if isinstance(n, ast.For) and any(inside(mod, c, n) for c in r.start_calls) and n not in lc.spawn_loops:
+        if isinstance(n, ast.For) and any(inside(mod, c, n) for c in lc.start_sites) and n not in lc.spawn_loops:
             lc.spawn_loops.append(n)
     lc.sent_loops = []
     for n in e.own_nodes():
@@ -1582,6 +1586,12 @@ def rule_sentinels(ctx, rid, r):
 
 
 # ------------------------------------------------------------------------------------------------ C07.L4
+def _is_started_test(test, var):
+    """`<var>.ident is not None` / `<var>.is_alive()`: was this thread started at all?"""
+    t = norm(test)
+    return t in (f"{var}.ident is not None", f"{var}.is_alive()", f"{var}.ident != None", f"{var}.ident")
+
+
 def rule_pool_joins(ctx, rid, r):
     """From every statement that starts a thread, every path to an exit of the engine - normal end, or any exception at the
     start, while waiting, or later - passes a loop that joins the list the started threads are appended to."""
@@ -1593,25 +1603,37 @@ def rule_pool_joins(ctx, rid, r):
     joins = lc.thread_joins
     ctx.floor(rid, "thread join sites in the engine", len(joins), 1)
     ctx.floor(rid, "thread start sites in the engine", len(r.start_calls), 1)
-    for sc in r.start_calls:
+    for sc in lc.start_sites:
         st = stmt_of(mod, sc)
-        # the list this thread is appended to
-        lst = None
-        if isinstance(st, ast.Expr) and isinstance(st.value, ast.Call) and isinstance(st.value.func, ast.Attribute) \
+        # the list the started thread is recorded in, and whether it is recorded *before* it runs: a thread whose start() is
+        # interrupted after it was launched (or whose recording is skipped by an exception) must still be joined
+        lst, recorded_first = None, False
+        if sc in lc.start_method_calls and isinstance(sc.func.value, ast.Name):
+            tv = sc.func.value.id
+            for c in pool.own_calls():
+                if isinstance(c.func, ast.Attribute) and c.func.attr == "append" and isinstance(c.func.value, ast.Name) and len(c.args) == 1 \
+                        and is_name(c.args[0], tv):
+                    an = set(g.of(stmt_of(mod, c)))
+                    if an and all(g.dominates(an, sn) for sn in g.of(st)):
+                        lst, recorded_first = c.func.value.id, True
+        elif isinstance(st, ast.Expr) and isinstance(st.value, ast.Call) and isinstance(st.value.func, ast.Attribute) \
                 and st.value.func.attr == "append" and isinstance(st.value.func.value, ast.Name) and st.value.args and st.value.args[0] is sc:
-            lst = st.value.func.value.id
-        ok_l = lst is not None
+            lst = st.value.func.value.id  # recorded with the value of the call that started it: not recorded if that call is interrupted
+        ok_l = lst is not None and recorded_first
         ctx.ob(rid, f"{pool.short}/joins-all-started", ok_l, loc(pool, sc),
-               "every started thread is appended to the list that is joined" if ok_l else
-               "a started thread may not be in the joined list", norm(st))
-        if not ok_l:
+               "every thread is recorded in the list that is joined before it is started" if ok_l else
+               ("the thread is recorded only after the call that starts it has returned: an interrupt inside Thread.start() - after the "
+                "thread was launched - leaves a running worker that nobody joins (run() returns while it still executes a call)" if lst is not None
+                else "a started thread may not be in the joined list"), norm(st))
+        if lst is None:
             continue
         through = set()
         for j, loop in lc.join_loops.items():
             if loop.iter.id == lst and not j.args and not j.keywords:
-                # the loop header node: reaching it means the join loop runs over the whole list
+                # the loop header node: reaching it means the join loop runs over the whole list; a guard inside the loop may only ask
+                # whether the thread was started at all (joining an unstarted thread raises)
                 guards = [pn for pn in ast.walk(pool.node) if isinstance(pn, ast.If) and inside(mod, j, pn) and inside(mod, pn, loop)]
-                if not guards:
+                if all(_is_started_test(pn.test, norm(loop.target)) for pn in guards):
                     through |= set(g.of(loop))
         ok = bool(through)
         witness = ""
@@ -1628,7 +1650,9 @@ def rule_pool_joins(ctx, rid, r):
         ok = not j.args and not j.keywords
         ctx.ob(rid, f"{pool.short}/join-no-timeout", ok, loc(pool, j), "join() without timeout" if ok else
                "join with a timeout can return while the worker still runs", norm(j))
-        guards = [p for p in _anc(mod, j) if isinstance(p, ast.If) and not any(inside(mod, sc, p) for sc in r.start_calls)]
+        lv_ = norm(lc.join_loops[j].target) if j in lc.join_loops else None
+        guards = [p for p in _anc(mod, j) if isinstance(p, ast.If) and not any(inside(mod, sc, p) for sc in lc.start_sites)
+                  and not (lv_ and _is_started_test(p.test, lv_))]
         ctx.ob(rid, f"{pool.short}/join-unconditional", not guards, loc(pool, j),
                "the join is unconditional" if not guards else
                f"the join is skipped under `if {norm(guards[0].test)[:40]}`: on that path (e.g. KeyboardInterrupt) run returns while calls "
@@ -1638,8 +1662,8 @@ def rule_pool_joins(ctx, rid, r):
         if c is pool:
             continue
         starts = [x for x in c.own_calls() if "threading.Thread.start" in ext_names(m, c, x)]
-        ctx.ob(rid, f"{c.short}/thread-started-and-returned", len(starts) == 1 and any(isinstance(n, ast.Return) and n.value is not None for n in c.own_nodes()),
-               loc(c, call), "thread is started once and handed back for joining")
+        ctx.ob(rid, f"{c.short}/thread-started-and-returned", len(starts) <= 1 and any(isinstance(n, ast.Return) and n.value is not None for n in c.own_nodes()),
+               loc(c, call), "the thread is handed back (for recording and joining), started at most once")
 
 
 # ------------------------------------------------------------------------------------------------ C17.K6
